@@ -231,8 +231,11 @@ class SymCx(BaseCx):
         ex = self.ex
         w = ex.width
         v = ex.declare(name, 'int', lambda: z3.BitVec(name, w))
-        s = SymInt(v, lo, hi)
-        ex.assume(z3.And(v >= lo, v <= hi))
+        s = SymInt(v, lo, hi, w)
+        if ex.pos < len(ex.trail):
+            ex.pos += 1          # replaying the range assumption
+        else:
+            ex.assume(z3.And(v >= lo, v <= hi))
         return s
 
     def bool(self, name):
@@ -306,6 +309,12 @@ class SymCx(BaseCx):
                 return      # the check holds on this path
         self.violations.append(Violation(label, ex.model_dict(m), detail))
 
+    def valid(self, cond):
+        """Is cond true for EVERY input of the current path?  One query, no fork."""
+        if isinstance(cond, SymBool):
+            return not self.ex._sat(z3.Not(cond.e))
+        return bool(cond)
+
     def eval_repr(self, text, namespace):
         return tokens.eval_with_tokens(text, namespace)
 
@@ -358,6 +367,9 @@ class ConCx(BaseCx):
     def fail(self, label, detail=''):
         self.hit(label)
         self.failed.append(label)
+
+    def valid(self, cond):
+        return bool(cond)
 
     def eval_repr(self, text, namespace):
         return eval(text, dict(namespace))   # noqa: S307
